@@ -10,7 +10,7 @@ def config(T):
                                                        T("TestConcurrentRefresh", 30, 600, sq=1, st=4, race=True, timeout_q=900)]),
         "C07": dict(pkg="c07", tests=[T("TestLiveSQL", 800, 32000, sq=8, st=16, race=True)]),
         "C08": dict(pkg="c08", tests=[T("TestCache", 2400, 96000, sq=8, st=16, race=True)]),
-        "C09": dict(pkg="c09", tests=[T("TestKnownOrder"), T("TestMergeAlgebra", 4000, 160000, sq=4, st=16)]),
+        "C09": dict(pkg="c09", tests=[T("TestKnownOrder"), T("TestMergeAlgebra", 4000, 160000, sq=4, st=16), T("TestVersionedGateway", 240, 8000, sq=4, st=8)]),
         "C10": dict(pkg="c10", tests=[T("TestBatchTransparent", 1600, 48000, sq=8, st=16, race=True)]),
         "C11": dict(pkg="c11", tests=[T("TestPagination", 6000, 240000, sq=4, st=16)]),
         "C12": dict(pkg="c12", tests=[T("TestShardLimit", 2400, 64000, sq=4, st=16)]),
